@@ -1826,6 +1826,11 @@ func (p *scionPacketProcessor) processOHP() disposition {
 		// TODO parameter problem -> invalid path
 		return errorDiscard("error", errMalformedPath)
 	}
+	if int(s.PayloadLen) != len(s.Payload) {
+		// Same requirement as validatePktLen for SCION paths: never pass on a packet whose
+		// header does not describe the payload that is actually there.
+		return errorDiscard("error", errBadPacketSize)
+	}
 
 	// OHP leaving our IA
 	if p.ingressFromLink == 0 {
